@@ -334,6 +334,50 @@ def _padded(ex, st, args, flavor):
     yield st, SV("bool", z3.Implies(z3.And(*ante), fn(bm.sstr(s)) == bm.sstr(core)))
 
 
+def _sb_strip_core(ex, st, args, kwargs):
+    """strip_core(s, w1, ws_pattern, w2, core): s == w1 + core + w2, w1/w2 whitespace only, core non-empty
+    and already stripped (core.strip() == core)  =>  s.strip() == core.   [trusted fact about str.strip]"""
+    from .regex import only_chars, to_z3
+
+    s, w1, wspat, w2, core = args
+    if is_sym(wspat) or not only_chars(wspat, lambda c: any(lo <= ord(c) <= hi for lo, hi in bm.PY_WS)):
+        raise Unsupported(f"strip_core: {wspat!r} is not a literal whitespace-only pattern")
+    whole = bm.str_concat([w1, core, w2])
+    ws = to_z3(wspat)
+    c = bm.sstr(bm.str_concat([core]))
+    ante = [bm.sstr(s) == bm.sstr(whole), z3.InRe(bm.sstr(w1), ws), z3.InRe(bm.sstr(w2), ws),
+            bm.strip_term(c) == c, z3.Length(c) > 0]
+    yield st, SV("bool", z3.Implies(z3.And(*ante), bm.PY_STRIP(bm.sstr(s)) == c))
+
+
+def _sb_cut_at(ex, st, args, kwargs):
+    """cut_at(a, sep, b): sep (one character) does not occur in a  =>  for s = a+sep+b: s.find(sep) == len(a),
+    s[:len(a)] == a, s[len(a)+1:] == b   (so partition/split cut exactly there)."""
+    a, sep, b = args
+    if is_sym(sep) or len(sep) != 1:
+        raise Unsupported("cut_at needs a literal one-character separator")
+    s = bm.sstr(bm.str_concat([a, sep, b]))
+    a, b = bm.sstr(a), bm.sstr(b)
+    sp = z3.StringVal(sep)
+    yield st, SV("bool", z3.Implies(z3.Not(z3.Contains(a, sp)),
+                                    z3.And(z3.IndexOf(s, sp, 0) == z3.Length(a),
+                                           z3.SubString(s, 0, z3.Length(a)) == a,
+                                           z3.SubString(s, z3.Length(a) + 1, z3.Length(s) - z3.Length(a) - 1) == b)))
+
+
+def _sb_excludes(ex, st, args, kwargs):
+    """excludes(v, pattern, ch): no string of L(pattern) contains ch (decided on the regex)  =>  ch not in v."""
+    from .regex import alphabet_excludes, to_z3
+
+    v, pat, ch = args
+    if is_sym(pat) or is_sym(ch) or len(ch) != 1:
+        raise Unsupported("excludes needs a literal pattern and a single character")
+    if not alphabet_excludes(pat, ch):
+        raise Unsupported(f"excludes: strings of {pat!r} may contain {ch!r}")
+    t = bm.sstr(v)
+    yield st, SV("bool", z3.Implies(z3.InRe(t, to_z3(pat)), z3.Not(z3.Contains(t, z3.StringVal(ch)))))
+
+
 def _sb_index_at(ex, st, args, kwargs):
     """index_at(a, pattern_a, sep, b): a in L(pattern_a), no string of which contains sep[0]  =>
     for s = a+sep+b: s.find(sep) == len(a), s[:len(a)] == a and s[len(a)+len(sep):] == b."""
@@ -464,7 +508,7 @@ def _sb_py_int_strip(ex, st, args, kwargs):
     yield st, (SV("str", bm.strip_term(bm.sstr(s), "int")) if is_sym(s) else s.strip(" \t\n\x0b\x0c\r"))
 
 
-SPEC_BUILTINS = {"int_padded": _sb_int_padded, "py_int_strip": _sb_py_int_strip, "py_repr": _sb_py_repr, "loops_exhausted": _sb_loops_exhausted, "call_kwarg": _sb_call_kwarg, "some": _sb_some, "index_at": _sb_index_at, "strip_blank": _sb_strip_blank, "pos_of": _sb_pos_of, "call_arg": _sb_call_arg, "unmodified": _sb_unmodified, "uf": _sb_uf, "called": _sb_called, "py_isalpha": _sb_py_isalpha, "py_isdigit": _sb_py_isdigit, "int_of_signed": _sb_int_of_signed, "strip_padded": _sb_strip_padded, "strip_unique": _sb_strip_unique, "py_strip": _sb_py_strip, "pad": _sb_pad, "matches": _sb_matches, "nat": _sb_nat, "key_at": _sb_key_at, "val_at": _sb_val_at,
+SPEC_BUILTINS = {"strip_core": _sb_strip_core, "cut_at": _sb_cut_at, "excludes": _sb_excludes, "int_padded": _sb_int_padded, "py_int_strip": _sb_py_int_strip, "py_repr": _sb_py_repr, "loops_exhausted": _sb_loops_exhausted, "call_kwarg": _sb_call_kwarg, "some": _sb_some, "index_at": _sb_index_at, "strip_blank": _sb_strip_blank, "pos_of": _sb_pos_of, "call_arg": _sb_call_arg, "unmodified": _sb_unmodified, "uf": _sb_uf, "called": _sb_called, "py_isalpha": _sb_py_isalpha, "py_isdigit": _sb_py_isdigit, "int_of_signed": _sb_int_of_signed, "strip_padded": _sb_strip_padded, "strip_unique": _sb_strip_unique, "py_strip": _sb_py_strip, "pad": _sb_pad, "matches": _sb_matches, "nat": _sb_nat, "key_at": _sb_key_at, "val_at": _sb_val_at,
                  "same_dict": _sb_same_dict}
 
 
